@@ -14,6 +14,12 @@ Supported names
              which cells receives which lattice point), the dart counts per cell and whether the
              2-D builders start with the zero-count guard `if n_x == 0 || n_y == 0 { return map; }`.
 
+  "anchors": /repo/honeycomb-kernels/src/utils/anchors.rs -> lean/Honeycomb/Gen/Anchors.lean
+           * the variants and `anchor_dim` of VertexAnchor / EdgeAnchor / FaceAnchor, the `match` arms of
+             the three `AttributeUpdate::merge` impls (in source order), the shape of `split` /
+             `merge_incomplete`, the absence of `*_from_none` overrides, `BIND_POLICY`, and the `From`
+             conversions between the anchor types.
+
 The translation is token/regex level.  Everything that is not recognised raises `Shape`, which
 makes `run` return ok=False: the check then reports that the proof no longer talks about the code.
 This file is part of the trusted base (keep it small).
@@ -387,7 +393,200 @@ def gen_grid():
            + (" (unchanged)" if old == text else " (rewritten)")
 
 
-GENERATORS = {"grid": gen_grid}
+# ---------------------------------------------------------------------------------------------
+# utils/anchors.rs  (C15, C17)
+# ---------------------------------------------------------------------------------------------
+
+ANCH_RS = "/repo/honeycomb-kernels/src/utils/anchors.rs"
+ANCH_OUT = os.path.join(VERIF, "lean", "Honeycomb", "Gen", "Anchors.lean")
+ANCH_TYPES = ["VertexAnchor", "EdgeAnchor", "FaceAnchor"]
+ANCH_POLICY = {"Vertex": 0, "Edge": 1, "Face": 2}
+
+
+def braced(src, header_rx, what):
+    """text between the braces that follow the unique match of `header_rx`"""
+    ms = list(re.finditer(header_rx, src))
+    need(len(ms) == 1, f"{what}: expected exactly one `{header_rx}`, found {len(ms)}")
+    i = src.index("{", ms[0].end() - 1) if src[ms[0].end() - 1] == "{" else src.index("{", ms[0].end())
+    depth, j = 0, i
+    while j < len(src):
+        if src[j] == "{":
+            depth += 1
+        elif src[j] == "}":
+            depth -= 1
+            if depth == 0:
+                return src[i + 1:j]
+        j += 1
+    raise Shape(f"unbalanced braces in {what}")
+
+
+def flat(s):
+    return " ".join(s.split())
+
+
+MERGE_EQ = re.compile(
+    r"\(Self::(\w+)\((\w+)\), Self::(\w+)\((\w+)\)\) => \{ if (\w+) == (\w+) \{ Ok\(Self::(\w+)\((\w+)\)\) \} "
+    r"else \{ Err\(AttributeError::FailedMerge\( ?std::any::type_name::<Self>\(\), \"[^\"]*\",? ?\)\) \} \},? ?")
+MERGE_LOW = re.compile(
+    r"\(Self::(\w+)\((\w+)\), _\) \| \(_, Self::(\w+)\((\w+)\)\) => Ok\(Self::(\w+)\((\w+)\)\),? ?")
+
+
+def anchor_type(src, ty):
+    w = ty
+    # variants
+    ebody = flat(braced(src, r"\bpub enum " + ty + r"\b", f"enum {ty}"))
+    variants = []
+    for ent in split_top(ebody):
+        m = re.fullmatch(r"(\w+)\((\w+)\)", ent)
+        need(m, f"{w}: variant shape not recognised: {ent!r}")
+        need(m.group(2) in ("NodeIdType", "CurveIdType", "SurfaceIdType", "BodyIdType"), f"{w}: payload type {m.group(2)!r}")
+        variants.append(m.group(1))
+    need(variants and len(set(variants)) == len(variants), f"{w}: no or repeated variants")
+    for idt in ("NodeIdType", "CurveIdType", "SurfaceIdType", "BodyIdType"):
+        need(re.search(r"\bpub type " + idt + r" = u32;", src), f"{idt} is not u32")
+    # anchor_dim
+    ibody = braced(src, r"\bimpl " + ty + r" \{", f"impl {ty}")
+    need(len(re.findall(r"\bfn\b", ibody)) == 1, f"{w}: inherent impl has more than `anchor_dim`")
+    dbody = flat(fn_body(ibody, "anchor_dim"))
+    m = re.fullmatch(r"match self \{ (.*) \}", dbody)
+    need(m, f"{w}: anchor_dim is not a single match")
+    dims = {}
+    for arm in split_top(m.group(1)):
+        a = re.fullmatch(r"Self::(\w+)\(_\) => (\d+)", arm)
+        need(a, f"{w}: anchor_dim arm not recognised: {arm!r}")
+        dims[a.group(1)] = int(a.group(2))
+    need(list(dims) == variants, f"{w}: anchor_dim arms {list(dims)} differ from the variants {variants}")
+    need(len(set(dims.values())) == len(dims) and all(0 <= v < 4 for v in dims.values()),
+         f"{w}: dimensions must be pairwise distinct and < 4 (the code is 4*id + dim)")
+    # bind policy
+    bbody = flat(braced(src, r"\bimpl AttributeBind for " + ty + r" \{", f"AttributeBind for {ty}"))
+    m = re.search(r"const BIND_POLICY: OrbitPolicy = OrbitPolicy::(\w+);", bbody)
+    need(m and m.group(1) in ANCH_POLICY, f"{w}: BIND_POLICY not recognised")
+    need("type StorageType = AttrSparseVec<Self>;" in bbody, f"{w}: storage is not AttrSparseVec")
+    kind = ANCH_POLICY[m.group(1)]
+    # AttributeUpdate
+    ubody = braced(src, r"\bimpl AttributeUpdate for " + ty + r" \{", f"AttributeUpdate for {ty}")
+    fns = re.findall(r"\bfn (\w+)", ubody)
+    need(sorted(fns) == ["merge", "merge_incomplete", "split"],
+         f"{w}: AttributeUpdate defines {fns}; expected merge, split, merge_incomplete (the *_from_none laws keep the trait default)")
+    need(flat(fn_sig(ubody, "merge")) == "(attr1: Self, attr2: Self) -> Result<Self, AttributeError>", f"{w}: merge signature")
+    need(flat(fn_sig(ubody, "split")) == "(attr: Self) -> Result<(Self, Self), AttributeError>", f"{w}: split signature")
+    need(flat(fn_sig(ubody, "merge_incomplete")) == "(val: Self) -> Result<Self, AttributeError>", f"{w}: merge_incomplete signature")
+    need(flat(fn_body(ubody, "split")) == "Ok((attr, attr))", f"{w}: split is not `Ok((attr, attr))`")
+    need(flat(fn_body(ubody, "merge_incomplete")) == "Ok(val)", f"{w}: merge_incomplete is not `Ok(val)`")
+    mbody = flat(fn_body(ubody, "merge"))
+    m = re.fullmatch(r"match \(attr1, attr2\) \{ (.*) \}", mbody)
+    need(m, f"{w}: merge is not a single `match (attr1, attr2)`")
+    rest, arms = m.group(1) + " ", []
+    while rest.strip():
+        a = MERGE_EQ.match(rest)
+        if a:
+            v1, i1, v2, i2, c1, c2, rv, ri = a.groups()
+            need(v1 == v2 == rv and v1 in variants, f"{w}: equal-dimension arm mixes variants: {a.group(0)!r}")
+            need(i1 != i2 and {c1, c2} == {i1, i2} and ri in (i1, i2), f"{w}: equal-dimension arm identifiers: {a.group(0)!r}")
+            arms.append(("eq", v1, i1, i2, ri))
+            rest = rest[a.end():]
+            continue
+        a = MERGE_LOW.match(rest)
+        if a:
+            v1, i1, v2, i2, rv, ri = a.groups()
+            need(v1 == v2 == rv and i1 == i2 == ri and v1 in variants, f"{w}: one-sided arm not recognised: {a.group(0)!r}")
+            arms.append(("low", v1, i1))
+            rest = rest[a.end():]
+            continue
+        raise Shape(f"{w}: merge arm not recognised at {rest[:80]!r}")
+    need(arms, f"{w}: merge has no arm")
+    return {"name": ty, "variants": variants, "dims": dims, "kind": kind, "arms": arms}
+
+
+def anchor_from(src, types):
+    convs = []
+    for m in re.finditer(r"\bimpl From<(\w+)> for (\w+) \{", src):
+        a, b = m.group(1), m.group(2)
+        need(a in types and b in types and a != b, f"From<{a}> for {b}: unknown anchor type")
+        body = braced(src, r"\bimpl From<" + a + r"> for " + b + r" \{", f"From<{a}> for {b}")
+        need(flat(fn_sig(body, "from")) == f"(value: {a}) -> Self", f"From<{a}> for {b}: signature")
+        fb = flat(fn_body(body, "from"))
+        mm = re.fullmatch(r"match value \{ (.*) \}", fb)
+        need(mm, f"From<{a}> for {b}: body is not a single match")
+        arms = []
+        for arm in split_top(mm.group(1)):
+            x = re.fullmatch(a + r"::(\w+)\((\w+)\) => " + b + r"::(\w+)\((\w+)\)", arm)
+            need(x and x.group(2) == x.group(4), f"From<{a}> for {b}: arm not recognised: {arm!r}")
+            need(x.group(1) in types[a]["variants"] and x.group(3) in types[b]["variants"], f"From<{a}> for {b}: unknown variant in {arm!r}")
+            arms.append((x.group(1), x.group(3)))
+        need([v for v, _ in arms] == types[a]["variants"], f"From<{a}> for {b}: arms do not list the variants of {a} in order")
+        convs.append((a, b, arms))
+    return convs
+
+
+def gen_anchors():
+    src = strip_comments(open(ANCH_RS).read())
+    types = {t: anchor_type(src, t) for t in ANCH_TYPES}
+    need(len(re.findall(r"\bimpl AttributeUpdate for\b", src)) == len(ANCH_TYPES), "anchors.rs: unexpected AttributeUpdate impl")
+    need(len(re.findall(r"\bpub enum\b", src)) == len(ANCH_TYPES), "anchors.rs: unexpected enum")
+    convs = anchor_from(src, types)
+    out = ["/-\n  GENERATED by /verif/tools/gen_lean.py from\n  /repo/honeycomb-kernels/src/utils/anchors.rs — DO NOT EDIT.\n"
+           "  Regenerated by tools/check.py before every build; a change of the Rust `match` arms changes this\n"
+           "  file and the theorems of Props/C15.lean (anchor algebra) are re-checked against it.\n\n"
+           "  Per anchor type: the variants (identifiers are `u32` in Rust, `Nat` here), `anchor_dim`, the\n"
+           "  `AttributeUpdate` laws (`merge` arm by arm in source order — Rust and Lean both take the first\n"
+           "  matching arm; `none` = `Err(AttributeError::FailedMerge(..))`; `split = Ok((a, a))`;\n"
+           "  `merge_incomplete = Ok(a)`; `merge_from_none` / `split_from_none` are not overridden, i.e. the\n"
+           "  trait's default `Err(InsufficientData)`), the orbit kind of `BIND_POLICY`, the `From`\n"
+           "  conversions, and the numeric code `4 * id + dim` used by the drivers.\n-/\n",
+           "namespace HC.Gen.Anchors\n"]
+    for t in ANCH_TYPES:
+        d = types[t]
+        vs = d["variants"]
+        out.append(f"/-- `enum {t}` -/\ninductive {t} where")
+        for v in vs:
+            out.append(f"  | {v} (id : Nat)")
+        out.append("  deriving DecidableEq, Repr, Inhabited\n")
+        out.append(f"namespace {t}\n")
+        out.append("/-- `anchor_dim` -/\ndef dim : " + t + " → Nat")
+        for v in vs:
+            out.append(f"  | .{v} _ => {d['dims'][v]}")
+        out.append("\n/-- the identifier carried by the anchor -/\ndef id : " + t + " → Nat")
+        for v in vs:
+            out.append(f"  | .{v} i => i")
+        out.append(f"\n/-- orbit kind of `BIND_POLICY` (0 vertex, 1 edge, 2 face) -/\ndef kind : Nat := {d['kind']}\n")
+        out.append("/-- `AttributeUpdate::merge`; `none` = `Err(FailedMerge)` -/\ndef merge : " + t + " → " + t + " → Option " + t)
+        for arm in d["arms"]:
+            if arm[0] == "eq":
+                _, v, i1, i2, ri = arm
+                out.append(f"  | .{v} {i1}, .{v} {i2} => if {i1} = {i2} then some (.{v} {ri}) else none")
+            else:
+                _, v, i = arm
+                out.append(f"  | .{v} {i}, _ => some (.{v} {i})")
+                out.append(f"  | _, .{v} {i} => some (.{v} {i})")
+        out.append("\n/-- `AttributeUpdate::split` = `Ok((attr, attr))` -/\ndef split (a : " + t + ") : Option (" + t + " × " + t + ") := some (a, a)")
+        out.append("/-- `AttributeUpdate::merge_incomplete` = `Ok(val)` -/\ndef mergeIncomplete (a : " + t + ") : Option " + t + " := some a")
+        out.append("/-- `merge_from_none` / `split_from_none`: trait defaults (`Err(InsufficientData)`) -/")
+        out.append("def mergeFromNone : Option " + t + " := none\ndef splitFromNone : Option (" + t + " × " + t + ") := none\n")
+        out.append("/-- driver code of an anchor: `4 * id + dim` -/\ndef code (a : " + t + ") : Nat := 4 * a.id + a.dim\n")
+        out.append("def ofCode (c : Nat) : Option " + t + " :=\n  match c % 4 with")
+        for v in sorted(vs, key=lambda v: d["dims"][v]):
+            out.append(f"  | {d['dims'][v]} => some (.{v} (c / 4))")
+        out.append("  | _ => none")
+        out.append(f"\nend {t}\n")
+    for a, b, arms in convs:
+        out.append(f"/-- `impl From<{a}> for {b}` -/\ndef {a}.to{b} : {a} → {b}")
+        for v, wv in arms:
+            out.append(f"  | .{v} i => .{wv} i")
+        out.append("")
+    out.append("end HC.Gen.Anchors\n")
+    text = "\n".join(out)
+    os.makedirs(os.path.dirname(ANCH_OUT), exist_ok=True)
+    old = open(ANCH_OUT).read() if os.path.exists(ANCH_OUT) else None
+    if old != text:
+        open(ANCH_OUT, "w").write(text)
+    return f"anchors: {sum(len(types[t]['arms']) for t in ANCH_TYPES)} merge arms over {len(ANCH_TYPES)} anchor types, " \
+           f"{len(convs)} From conversions -> {os.path.relpath(ANCH_OUT, VERIF)}" \
+           + (" (unchanged)" if old == text else " (rewritten)")
+
+
+GENERATORS = {"grid": gen_grid, "anchors": gen_anchors}
 
 
 def run(names):
